@@ -21,6 +21,8 @@ CONFIGS = {
     # address or output that depends on them is reported at the point of use (C07 "no uninitialised memory")
     'msan':   ('-O1 -g -fno-omit-frame-pointer -fsanitize=memory', '-DSK_MSAN', '-fsanitize=memory'),
     'msan32': ('-O1 -g -fno-omit-frame-pointer -fsanitize=memory -U__SIZEOF_INT128__', '-DSK_MSAN', '-fsanitize=memory'),
+    # source coverage of /repo/src under the engines (tools/coverage.sh; a measuring aid, not a check)
+    'cov':    ('-O1 -g -fprofile-instr-generate -fcoverage-mapping', '-DSK_COV', '-fprofile-instr-generate -fcoverage-mapping'),
     'plain':  ('-O2 -g', '', ''),
     'plain32': ('-O2 -g -U__SIZEOF_INT128__', '', ''),
     'release': ('-O2 -g -DNDEBUG', '', ''),   # the build that ships: no ASSERTs, so output oracles decide alone
